@@ -120,7 +120,12 @@ macroget(char *name)
 static void
 macrodone(struct macro *m)
 {
+	struct token *t;
+
 	m->hide = false;
+	/* names marked unavailable during this replacement were marked in the stored list */
+	for (t = m->token; t < m->token + m->ntoken; ++t)
+		t->hide = false;
 	if (m->kind == MACROFUNC && m->nparam > 0) {
 		free(m->arg[0].token);
 		free(m->arg);
